@@ -7,6 +7,7 @@ import (
 	"github.com/prometheus/client_golang/prometheus"
 	dto "github.com/prometheus/client_model/go"
 
+	"verifharness/internal/cli"
 	"verifharness/internal/emit"
 )
 
@@ -14,7 +15,7 @@ import (
 // case := (bounds, ops, impl) ; op := OObs v | OWrite ; impl := IPanic | IOk (list wout)
 // wout := (count, sum, list (bound, cum))
 
-func init() { register("C03", runC03) }
+func main() { cli.Main("C03", runC03) }
 
 func c03Layout(r *emit.Rng) ([]float64, string) {
 	switch r.Intn(12) {
@@ -170,7 +171,7 @@ func c03RunImpl(bs []float64, ops []float64, isWrite []bool) (panicked bool, out
 	return
 }
 
-func runC03(c *Ctx) error {
+func runC03(c *cli.Ctx) error {
 	r := emit.NewRng(c.Seed)
 	w := emit.NewWriter(c.Out, "C03", "seq")
 	n := 300 * c.Scale
